@@ -161,7 +161,12 @@ def main(ctx: Ctx) -> int:
     cov["tlc_chosen_trees"] = len(trees)
     two, three = ("num", "2.0"), ("num", "3.0")
     for w in [("bin", "**", two, ("bin", "**", three, two)), ("neg", ("bin", "**", two, two)), ("bin", "*", ("ab", "H2"), two), ("bin", "*", ("ab", "He"), two),
-              ("bin", "*", ("ab", "E"), two), ("bin", "-", ("var", "user_x"), ("bin", "**", three, two)), ("bin", "/", two, ("bin", "/", ("var", "Tgas"), three))]:
+              ("bin", "*", ("ab", "E"), two), ("bin", "-", ("var", "user_x"), ("bin", "**", three, two)), ("bin", "/", two, ("bin", "/", ("var", "Tgas"), three)),
+              # a leading sign in front of a power whose base is a name / call / abundance / parenthesis: -x**y means -(x**y)
+              ("neg", ("bin", "**", ("var", "T32"), two)), ("call", "exp", ("neg", ("bin", "**", ("var", "T32"), two))),
+              ("bin", "+", ("neg", ("bin", "**", ("var", "user_x"), two)), three), ("neg", ("bin", "**", ("call", "sqrt", ("var", "Tgas")), three)),
+              ("neg", ("bin", "**", ("ab", "H"), two)), ("neg", ("bin", "**", ("bin", "+", ("var", "Tgas"), two), two)),
+              ("bin", "*", two, ("call", "exp", ("neg", ("bin", "**", ("var", "invT"), ("num", "1.5e-1")))))]:
         trees.append(("witness", w))
     for _ in range(300 if ctx.quick else 5000):
         trees.append(("random", gen_tree(rng, 3)))
